@@ -18,8 +18,10 @@ AREA = 'core'
 SETUP = ('obj;arr;num:3ff8000000000000;add:1:2;str:x76616c7565;add:1:3;addo:0:x6c697374:1;true;addcs:0:x636b:4;'       # 0 obj{list:[1.5,"value"], ck:true}
          'obj;astr:5:x6e616d65:x736f6d652074657874207468617420697320726174686572206c6f6e67;'                             # 5 obj{name:"some text …"}  6 = the string
          'str:x7265706c6163656d656e74;arr;null;add:8:9;'                                                                  # 7 detached string, 8 arr[null]
-         'obj;anum:10:x7274:4000000000000000;addrefo:0:x726566:10')                                                       # 10 obj{rt:2} (never edited), referenced from 0
-# handles after SETUP: 0..11; live roots: 0, 5, 7, 8, 10
+         'obj;anum:10:x7274:4000000000000000;addrefo:0:x726566:10;'                                                      # 10 obj{rt:2} (never edited), referenced from 0
+         'obj;astr:12:x6b6b:x7676;deto:12:x6b6b;'                                                                          # 12 obj{}, 13 = 14 = detached string that still OWNS its key "kk"
+         'str:x73747276616c;addrefo:0:x616c696173:15')                                                                     # 15 string, referenced from 0 under the owned key "alias" (reference with valuestring and key)
+# handles after SETUP: 0..16; live roots: 0, 5, 7, 8, 10, 12, 14, 15
 LONG = (b'a much longer value than the one that is stored ' * 3).hex()
 
 def scenarios():
@@ -31,7 +33,9 @@ def scenarios():
          'dup:0:1', 'dup:0:0', 'dup:5:1', 'dup:1:1', 'dup:6:1', 'dup:4:0',
          'repo:5:x6e616d65:7', 'repocs:5:x6e616d65:7', 'repo:5:x4e414d45:7', 'repo:5:k6:7', 'repo:5:x6d697373696e67:7',
          'sets:6:x' + LONG, 'sets:3:x' + LONG, 'sets:6:x73686f7274', 'sets:7:v6',
-         'ins:8:0:7', 'repa:8:0:7']
+         'ins:8:0:7', 'repa:8:0:7',
+         # an item that already owns a key is added / replaced under another name (the old key must survive a failed call)
+         'addo:5:x6e6b:14', 'addcs:5:x636b32:14', 'repo:5:x6e616d65:14', 'addo:5:k14:14', 'dup:14:1', 'dup:12:1']
     return s
 
 FOLLOW = 'anull:5:x6166746572;add:8:-;size:0;size:5;each:8'
